@@ -327,6 +327,9 @@ func (r *LayerManager) release(ctx context.Context, refspec reference.Spec, tocD
 		if !ok {
 			return 0, fmt.Errorf("layer of digest %q/%q is not registered (ref=%d)", refspec, tocDigest, i)
 		}
+		// Forget the resolve status of this layer so that the next request resolves it again
+		// (other layers of this image might still be in use, so the status of the image isn't reset).
+		delete(r.resolveLayerCache[refspec.String()], l.Info().Digest.String())
 		l.Done()
 		delete(r.layer[refspec.String()], tocDigest.String())
 		if len(r.layer[refspec.String()]) == 0 {
